@@ -597,6 +597,7 @@ class JSONAttrList(JSONList):
     """A :class:`JSONList` whose dict-like children will be of type :class:`JSONAttrDict`."""
 
     _backend = __name__ + ".attr"  # type: ignore
+    _validators = (no_dot_in_key,)
 
 
 class BufferedJSONAttrDict(BufferedJSONDict, AttrDict):
@@ -613,6 +614,7 @@ class BufferedJSONAttrList(BufferedJSONList):
     """A :class:`BufferedJSONList` whose dict-like children will be of type :class:`BufferedJSONAttrDict`."""  # noqa: E501
 
     _backend = __name__ + ".buffered_attr"  # type: ignore
+    _validators = (no_dot_in_key,)
 
 
 class MemoryBufferedJSONAttrDict(MemoryBufferedJSONDict, AttrDict):
@@ -629,3 +631,4 @@ class MemoryBufferedJSONAttrList(MemoryBufferedJSONList):
     """A :class:`MemoryBufferedJSONList` whose dict-like children will be of type :class:`MemoryBufferedJSONAttrDict`."""  # noqa: E501
 
     _backend = __name__ + ".memory_buffered_attr"  # type: ignore
+    _validators = (no_dot_in_key,)
